@@ -41,6 +41,20 @@ func printError(err error) {
 	}
 }
 
+// outWriter is standard output that remembers the first write that failed:
+// print statements have no way to report it, the run does at its end
+type outWriter struct {
+	err error
+}
+
+func (w *outWriter) Write(p []byte) (int, error) {
+	n, err := os.Stdout.Write(p)
+	if err != nil && w.err == nil {
+		w.err = err
+	}
+	return n, err
+}
+
 type multiFlag []string
 
 func (m *multiFlag) String() string {
@@ -138,9 +152,14 @@ func Run(version string) (exitCode int) {
 		}
 	}
 
-	ev, err := lang.EvalProgram(progSrc, inputFiles, rValues, os.Stdout, false)
+	stdout := &outWriter{}
+	ev, err := lang.EvalProgram(progSrc, inputFiles, rValues, stdout, false)
 	if err != nil {
 		printError(err)
+		return 1
+	}
+	if stdout.err != nil {
+		fmt.Fprintf(os.Stderr, "error writing output: %s\n", stdout.err.Error())
 		return 1
 	}
 
@@ -157,7 +176,10 @@ func Run(version string) (exitCode int) {
 		}
 
 		if *outfile == "-" {
-			fmt.Print(j)
+			if _, err := fmt.Print(j); err != nil {
+				fmt.Fprintf(os.Stderr, "error writing JSON: %s\n", err.Error())
+				return 1
+			}
 		} else {
 			file, err := os.Create(*outfile)
 			if err != nil {
